@@ -996,6 +996,16 @@ def dispatch_case(f):
     return "\n".join(lines)
 
 
+def write_if_changed(path, text):
+    try:
+        if open(path).read() == text:
+            return
+    except OSError:
+        pass
+    with open(path, "w") as fh:
+        fh.write(text)
+
+
 def main():
     srcdir, outdir = sys.argv[1], sys.argv[2]
     os.makedirs(outdir, exist_ok=True)
@@ -1056,8 +1066,7 @@ def main():
         head += [f"import {i}" for i in imports[c]]
         head += ["set_option linter.unusedVariables false", HEADER_VARS, "", f"namespace {c}"]
         body = "\n".join(head + texts[c] + [f"end {c}", ""])
-        with open(os.path.join(outdir, f"{c}.lean"), "w") as fh:
-            fh.write(body)
+        write_if_changed(os.path.join(outdir, f"{c}.lean"), body)
     ok = [f for f in order if f.lean is not None]
     # ---- facts
     total_dt, dt_rows = dtype_table(nodes)
@@ -1085,8 +1094,7 @@ def main():
              ", ".join(f"({lstr(a)}, {lstr(b)}, {lstr(c)}, {lstr(d)})" for a, b, c, d in dt_rows) + "]")
     F.append(f"def dtypeAssignmentsEvaluated : Nat := {total_dt}")
     F.append("end Gen.Facts\n")
-    with open(os.path.join(outdir, "Facts.lean"), "w") as fh:
-        fh.write("\n".join(F))
+    write_if_changed(os.path.join(outdir, "Facts.lean"), "\n".join(F))
     # ---- dispatch
     D = ["-- GENERATED by tools/translate.py; do not edit", f"-- source-sha256: {allsha}",
          "import PystogVerif.Gen.FourierFilter", "import PystogVerif.Driver", "",
@@ -1097,8 +1105,7 @@ def main():
     D.append('  | _ => throw "unknown-entry"')
     D.append("")
     D.append("def Gen.entries : List String := [" + ", ".join(lstr(f.qual) for f in ok) + "]\n")
-    with open(os.path.join(outdir, "Dispatch.lean"), "w") as fh:
-        fh.write("\n".join(D))
+    write_if_changed(os.path.join(outdir, "Dispatch.lean"), "\n".join(D))
     rep = {"sha256": shas, "functions": report, "swallowed": tr.swallowed,
            "uninit_sites": [{"site": k, "function": fn, "line": ln} for k, fn, ln in tr.site_info],
            "purity": pf, "dtype_assignments": total_dt,
